@@ -425,6 +425,85 @@ def emit(data, modname):
     return "\n".join(L) + "\n"
 
 
+# --------------------------------------------------------------------------- source audit (shared state)
+
+ALLOWED_MEMOS = {
+    ("spec/commands/params_common.py", "encrypted", "lru_cache"),   # its capacity is cache_size of the tables
+    ("common/canonical.py", "events", "cached_property"),           # per instance
+    ("common/canonical.py", "object", "cached_property"),           # per instance
+}
+MEMO_NAMES = {"lru_cache", "cache", "cached_property"}
+
+
+def audit_sources(srcdir):
+    """Syntactic audit of every module under src/tpmstream for the usual carriers of state that survives a call:
+    default arguments evaluated once (anything but constants and plain names), global/nonlocal statements, and
+    memo decorators / uses of functools' memo helpers other than the known ones. Returns a sorted list of findings
+    (empty on a tree without such carriers). Pure ast: nothing is imported or run."""
+    import ast
+    import os
+
+    out = []
+    for root, dirs, files in os.walk(srcdir):
+        dirs.sort()
+        for f in sorted(files):
+            if not f.endswith(".py"):
+                continue
+            path = os.path.join(root, f)
+            rel = os.path.relpath(path, srcdir).replace(os.sep, "/")
+            try:
+                tree = ast.parse(open(path, encoding="utf-8").read())
+            except SyntaxError as e:
+                out.append("unparsable:%s:%s" % (rel, e.msg))
+                continue
+
+            def plain(d):
+                if isinstance(d, ast.Constant):
+                    return True
+                if isinstance(d, (ast.Name, ast.Attribute)):
+                    return True
+                if isinstance(d, ast.UnaryOp) and isinstance(d.operand, ast.Constant):
+                    return True
+                if isinstance(d, ast.Tuple):
+                    return all(plain(x) for x in d.elts)
+                return False
+
+            allowed_nodes = set()
+            for n in ast.walk(tree):
+                if isinstance(n, (ast.FunctionDef, ast.AsyncFunctionDef, ast.Lambda)):
+                    a = n.args
+                    name = getattr(n, "name", "lambda")
+                    for d in list(a.defaults) + [x for x in a.kw_defaults if x is not None]:
+                        if not plain(d):
+                            out.append("default:%s:%s:%s" % (rel, name, ast.unparse(d)))
+                    for dec in getattr(n, "decorator_list", []):
+                        core = dec.func if isinstance(dec, ast.Call) else dec
+                        dn = core.id if isinstance(core, ast.Name) else core.attr if isinstance(core, ast.Attribute) else None
+                        if dn in MEMO_NAMES:
+                            if (rel, name, dn) in ALLOWED_MEMOS:
+                                allowed_nodes.add(id(core))
+                            else:
+                                out.append("memo:%s:%s:%s" % (rel, name, ast.unparse(dec)))
+                                allowed_nodes.add(id(core))
+                if isinstance(n, (ast.Global, ast.Nonlocal)):
+                    out.append("%s:%s:%s" % ("global" if isinstance(n, ast.Global) else "nonlocal", rel, ",".join(n.names)))
+            # any other use of functools' memo helpers (called as functions, assigned, ...)
+            for n in ast.walk(tree):
+                nm = n.id if isinstance(n, ast.Name) else n.attr if isinstance(n, ast.Attribute) else None
+                if nm in MEMO_NAMES and id(n) not in allowed_nodes:
+                    out.append("memo-helper:%s:%s:line %d" % (rel, nm, n.lineno))
+    return sorted(out)
+
+
+def emit_audit(findings):
+    L = ["(* generated by gen/translate.py audit_sources from /repo/src/tpmstream - do not edit *)",
+         "From Coq Require Import List String.", "Import ListNotations.", "Open Scope string_scope.",
+         "(** carriers of state that survives a call, found in the sources: default arguments evaluated once,",
+         "    global/nonlocal statements, memo decorators and helpers other than the known ones *)",
+         "Definition shared_state : list string := [" + "; ".join(qs("".join(c if 32 <= ord(c) <= 126 else "?" for c in x)) for x in findings) + "]."]
+    return "\n".join(L) + "\n"
+
+
 def main():
     if sys.argv[1] == "extract":
         data = extract()
